@@ -266,6 +266,48 @@ def comp_obs(lw):
     return out
 
 
+def parse_report(lw):
+    """Labware.report -> [(label or None, [tenths])] per entry, or None if numpy summarised / the text is ambiguous"""
+    import re
+
+    text = lw.report
+    name = lw.name
+    if not text.startswith(name):
+        return None
+    lines = text[len(name):].split("\n")
+    if lines and lines[0] == "":
+        lines = lines[1:]
+    ents, i = [], 0
+    while i < len(lines):
+        if lines[i] == "" and i == len(lines) - 1:
+            break
+        lab = []
+        while i < len(lines) and not lines[i].startswith("[["):
+            lab.append(lines[i])
+            i += 1
+        if i >= len(lines):
+            return None
+        arr = []
+        while i < len(lines):
+            arr.append(lines[i])
+            done = lines[i].endswith("]]")
+            i += 1
+            if done:
+                break
+        txt = " ".join(arr)
+        if "..." in txt:
+            return None
+        nums = re.findall(r"-?\d+\.?\d*(?:[eE][-+]?\d+)?|nan|inf", txt)
+        try:
+            tenths = [int(round(float(x) * 10)) for x in nums]
+        except (ValueError, OverflowError):
+            return None
+        if i < len(lines) and lines[i] == "":
+            i += 1
+        ents.append(["\n".join(lab) if lab else None, tenths])
+    return ents
+
+
 def rounding_guard(op, wl):
     """True if some ceil/floor the code computes on floats differs from the exact one (case dropped)."""
     try:
@@ -347,6 +389,7 @@ def run_program(case):
         "comp": [comp_obs(lw) for lw in lws],
         "all_recs": [str(r) for r in wl],
         "report": [lw.report for lw in lws],
+        "report_parsed": [parse_report(lw) for lw in lws],
     }
     # aliasing / snapshot observations (C11): captured history arrays and `volumes` copies never change
     mutated = []
@@ -629,7 +672,18 @@ def emit_program(case, obs):
         steps.append(f"({e_op(op)}, {ex})")
     fin = obs["final"]
     hist = clist([clist(["(%s, (%d, %s))" % ((e_label(lab),) + e_vols(vs)) for lab, vs in h]) for h in fin["hist"]])
-    final = "{| f_hist := %s; f_comp := %s |}" % (hist, clist([e_compobs(c) for c in fin["comp"]]))
+    def e_rep(r, h):
+        # only when the parse is unambiguous: one block per history entry and the labels match the truthy labels
+        if r is None or len(r) != len(h) or [x[0] for x in r] != [(lab if lab else None) for lab, _ in h]:
+            return "None"
+        # numpy prints with limited precision: trust the tenths only for volumes below 10^6
+        if any(abs(t) > 10 ** 7 for _, ts in r for t in ts):
+            return "None"
+        return "(Some %s)" % clist(["(%s, %s)" % (e_label(lab), clist([cz(t) for t in ts])) for lab, ts in r])
+
+    reps = fin.get("report_parsed") or [None] * len(fin["hist"])
+    final = "{| f_hist := %s; f_comp := %s; f_report := %s |}" % (
+        hist, clist([e_compobs(c) for c in fin["comp"]]), clist([e_rep(r, h) for r, h in zip(reps, fin["hist"])]))
     return ("{| p_dev := %s; p_max := %s; p_autosplit := %s; p_diti := %s; p_lw := %s; p_ops := %s; p_final := %s |}"
             % (dev, cq(Fraction(case["wl"]["max_volume"])), cbool(case["wl"]["auto_split"]), cbool(case["wl"]["diti_mode"]),
                clist([e_lwspec(s) for s in case["labware"]]), clist(steps), final))
